@@ -21,13 +21,16 @@ import (
 func TestMain(m *testing.M) {
 	vlib.Rule("C21: histories of 3-14 operations over the names /a /b /s/c /s/d (+ /e as a spare) and up to 3 link identities on a real Filer (leveldb2) through the FilerServer gRPC handlers: " +
 		"plain put (also over a linked name), link by the mount's two-request protocol, write and setattr through any name (CreateEntry or UpdateEntry with the freshly looked-up entry), append, " +
-		"unlink with the mount's isDeleteData=counter<=1 rule and with plain isDeleteData true/false, rename of linked and plain names to free names and onto names of another identity, recursive delete of /s with and without data. " +
+		"unlink with the mount's isDeleteData=counter<=1 rule and with plain isDeleteData true/false, rename of linked and plain names to free names and onto names of another identity, rename of the directory /s to /t and back, recursive delete of /s or /t with and without data. " +
 		"After every step every name is looked up and listed and the KV record of every identity is read. Non-trivial = some identity had >=2 names and an update, rename, unlink or overwrite went through a name other than the identity's first name. Distinct = distinct written-out history.")
 	vlib.Assume("C21: the client protocols are mirrored from weed/filesys (Link: UpdateEntry(old, id, counter+1) then CreateEntry(new); writes send the entry as just looked up, hard link id and counter included; the link target does not exist). A rename between two names of the same identity is not generated (POSIX makes it a no-op; the filer API has no such notion).")
 	vlib.Main(m)
 }
 
+// allNames are the names operations create; everyName adds the names that only
+// a rename of the directory /s to /t produces.
 var allNames = []string{"/a", "/b", "/s/c", "/s/d", "/e"}
+var everyName = []string{"/a", "/b", "/s/c", "/s/d", "/e", "/t/c", "/t/d"}
 
 // content is what a file (plain or shared) looks like.
 type content struct {
@@ -49,7 +52,7 @@ type model struct {
 	plain map[string]*content // path -> content of plain files
 	link  map[string]int      // path -> identity index
 	ids   []*identity
-	dirS  bool // /s exists
+	dirs  map[string]bool // which of /s, /t exist
 }
 
 type sim struct {
@@ -74,7 +77,7 @@ func (s *sim) exists(n string) bool {
 
 func (s *sim) existing() []string {
 	var out []string
-	for _, n := range allNames {
+	for _, n := range everyName {
 		if s.exists(n) {
 			out = append(out, n)
 		}
@@ -175,7 +178,7 @@ func (s *sim) fail(format string, args ...interface{}) {
 func (s *sim) step(i int) {
 	t, e := s.t, s.e
 	lbl := fmt.Sprintf("s%d", i)
-	kinds := []string{"put", "link", "link", "write", "write", "setattr", "unlink", "unlink", "rename", "rename", "append", "rmdir"}
+	kinds := []string{"put", "link", "link", "write", "write", "setattr", "unlink", "unlink", "rename", "rename", "append", "rmdir", "mvdir"}
 	if len(s.existing()) == 0 {
 		kinds = []string{"put"}
 	}
@@ -207,9 +210,7 @@ func (s *sim) step(i int) {
 		}
 		s.dropName(n)
 		s.m.plain[n] = &content{chunks: renderChunks(e, chunks), mtime: s.clock, mode: mode}
-		if strings.HasPrefix(n, "/s/") {
-			s.m.dirS = true
-		}
+		s.noteDir(n)
 
 	case "link":
 		src := rapid.SampledFrom(s.existing()).Draw(t, lbl+".src")
@@ -235,9 +236,7 @@ func (s *sim) step(i int) {
 		idx := s.m.link[src]
 		s.m.ids[idx].names[dst] = true
 		s.m.link[dst] = idx
-		if strings.HasPrefix(dst, "/s/") {
-			s.m.dirS = true
-		}
+		s.noteDir(dst)
 		s.classes["link"] = true
 		if len(s.m.ids) >= 2 {
 			s.classes["two-identities"] = true
@@ -391,18 +390,23 @@ func (s *sim) step(i int) {
 			s.m.plain[dst] = s.m.plain[src]
 			delete(s.m.plain, src)
 		}
-		if strings.HasPrefix(dst, "/s/") {
-			s.m.dirS = true
-		}
+		s.noteDir(dst)
 
 	case "rmdir":
-		if !s.m.dirS {
-			s.hist = append(s.hist, "skip(rmdir: no /s)")
+		var ds []string
+		for _, d := range []string{"/s", "/t"} {
+			if s.m.dirs[d] {
+				ds = append(ds, d)
+			}
+		}
+		if len(ds) == 0 {
+			s.hist = append(s.hist, "skip(rmdir: no directory)")
 			return
 		}
+		d := rapid.SampledFrom(ds).Draw(t, lbl+".dir")
 		data := rapid.Bool().Draw(t, lbl+".data")
 		hasLinked := false
-		for _, n := range []string{"/s/c", "/s/d"} {
+		for _, n := range []string{d + "/c", d + "/d"} {
 			if _, ok := s.m.link[n]; ok {
 				hasLinked = true
 			}
@@ -411,21 +415,82 @@ func (s *sim) step(i int) {
 			vlib.Excluded("C21-recursive-delete-without-data-keeps-counter")
 			data = true
 		}
-		err := e.Delete(s.root, "s", data, true, false)
-		s.hist = append(s.hist, fmt.Sprintf("rmdir -r /s data=%v -> %s", data, errStr(err)))
+		err := e.Delete(s.root, d[1:], data, true, false)
+		s.hist = append(s.hist, fmt.Sprintf("rmdir -r %s data=%v -> %s", d, data, errStr(err)))
 		if err != nil {
 			s.fail("recursive delete failed: %v", err)
 		}
-		for _, n := range []string{"/s/c", "/s/d"} {
+		for _, n := range []string{d + "/c", d + "/d"} {
 			if i, ok := s.m.link[n]; ok && len(s.m.ids[i].names) >= 2 {
 				s.nontriv = true
 			}
 			s.dropName(n)
 		}
-		s.m.dirS = false
+		delete(s.m.dirs, d)
 		if hasLinked {
 			s.classes["rmdir-with-linked"] = true
 		}
+
+	case "mvdir":
+		// rename of the directory holding names: /s -> /t or /t -> /s (destination absent)
+		from, to := "/s", "/t"
+		if !s.m.dirs["/s"] {
+			from, to = "/t", "/s"
+		}
+		if !s.m.dirs[from] || s.m.dirs[to] {
+			s.hist = append(s.hist, "skip(mvdir: needs exactly one of /s, /t)")
+			return
+		}
+		hasLinked := false
+		for _, n := range []string{from + "/c", from + "/d"} {
+			if _, ok := s.m.link[n]; ok {
+				hasLinked = true
+			}
+		}
+		if hasLinked && vlib.Known("C21-rename-drops-hardlink") {
+			vlib.Excluded("C21-rename-drops-hardlink")
+			s.hist = append(s.hist, "skip(mvdir with linked names excluded)")
+			return
+		}
+		err := e.Rename(s.root, from[1:], s.root, to[1:])
+		s.hist = append(s.hist, fmt.Sprintf("mvdir %s %s -> %s", from, to, errStr(err)))
+		if err != nil {
+			s.fail("directory rename failed: %v", err)
+		}
+		for _, leaf := range []string{"/c", "/d"} {
+			src, dst := from+leaf, to+leaf
+			if idx, ok := s.m.link[src]; ok {
+				id := s.m.ids[idx]
+				if len(id.names) >= 2 {
+					s.nontriv = true
+				}
+				delete(id.names, src)
+				delete(s.m.link, src)
+				id.names[dst] = true
+				s.m.link[dst] = idx
+				if id.first == src {
+					id.first = dst
+				}
+			} else if c, ok := s.m.plain[src]; ok {
+				s.m.plain[dst] = c
+				delete(s.m.plain, src)
+			}
+		}
+		delete(s.m.dirs, from)
+		s.m.dirs[to] = true
+		if hasLinked {
+			s.classes["mvdir-with-linked"] = true
+		}
+	}
+}
+
+// noteDir records that creating name n made its parent directory exist.
+func (s *sim) noteDir(n string) {
+	if strings.HasPrefix(n, "/s/") {
+		s.m.dirs["/s"] = true
+	}
+	if strings.HasPrefix(n, "/t/") {
+		s.m.dirs["/t"] = true
 	}
 }
 
@@ -441,8 +506,8 @@ func sameContent(e *fdrv.Env, ent *filer_pb.Entry, c content) (bool, string) {
 func (s *sim) check() {
 	e := s.e
 	listed := map[string]*filer_pb.Entry{}
-	for _, d := range []string{"", "/s"} {
-		if d == "/s" && !s.m.dirS {
+	for _, d := range []string{"", "/s", "/t"} {
+		if d != "" && !s.m.dirs[d] {
 			continue
 		}
 		ents, err := e.List(s.root + d)
@@ -453,7 +518,7 @@ func (s *sim) check() {
 			listed[d+"/"+le.Name] = le
 		}
 	}
-	for _, n := range allNames {
+	for _, n := range everyName {
 		ent, err := e.Lookup(s.abs(n))
 		if err != nil {
 			s.fail("lookup %s: %v", n, err)
@@ -534,7 +599,7 @@ func runHistory(t *rapid.T) {
 	e := fdrv.Get()
 	root, seq := e.NextCase()
 	s := &sim{t: t, e: e, root: root, seq: seq, classes: map[string]bool{},
-		m: &model{plain: map[string]*content{}, link: map[string]int{}}}
+		m: &model{plain: map[string]*content{}, link: map[string]int{}, dirs: map[string]bool{}}}
 	steps := rapid.IntRange(3, 14).Draw(t, "steps")
 	for i := 0; i < steps; i++ {
 		s.step(i)
@@ -547,7 +612,7 @@ func runHistory(t *rapid.T) {
 	sort.Strings(cl)
 	first := "no-link"
 	switch {
-	case s.classes["rename-linked"] || s.classes["rename-onto-linked"]:
+	case s.classes["rename-linked"] || s.classes["rename-onto-linked"] || s.classes["mvdir-with-linked"]:
 		first = "rename-linked"
 	case s.classes["put-over-linked"]:
 		first = "overwrite-linked"
